@@ -263,7 +263,16 @@ pub fn run(tier: Tier) -> i32 {
         // what a purge makes of it. This is where a replica holds an old entry for a key while
         // its cut-off for that origin has moved past the peer's newer one.
         let depth = tier.pick(5, 6);
-        let plain = p2_states(&crate::c04::pool(), depth);
+        // + one operation of origin 2 exactly one hour after its delete of key 1 at minute 10:
+        // a replica that saw it through both sources has its cut-off for origin 2 exactly ON
+        // that delete's stamp ("not older than the cut-off" includes equality; added after the
+        // seeded change C05-f)
+        let mut pool = crate::c04::pool();
+        pool.push(Op::ins(3, ts_min(70, 0, 2)));
+        // ... and one exactly one hour after its insert of key 2 at minute 20 (the same boundary
+        // for the list of modifications)
+        pool.push(Op::del(3, ts_min(80, 0, 2)));
+        let plain = p2_states(&pool, depth);
         let mut mixed: Vec<Labeled> = Vec::new();
         let mut seen = std::collections::HashSet::new();
         for s in &plain {
@@ -280,7 +289,7 @@ pub fn run(tier: Tier) -> i32 {
         mixed.extend(plain);
         families.push(
             J::obj()
-                .set("family", format!("P3 (difference rule only): every set reachable in <= {depth} steps over the 10-operation pool with >1h gaps, any order, both sources, + purged"))
+                .set("family", format!("P3 (difference rule only): every set reachable in <= {depth} steps over the 12-operation pool with >1h gaps (two pairs exactly 1h apart), any order, both sources, + purged"))
                 .set("states", mixed.len()),
         );
         let behind = mixed
